@@ -395,7 +395,10 @@ def install_lg_queries(reg: Registry):
         return z3.If(h.len(S) >= 1, 1 + ldepth(v_a(h.at(S, 0))), 0)
 
     reg.add(Contract(ML + ':LanguageGraphAsset.is_subasset_of', {'self': Obj(LGA), 'target_asset': Obj(LGA)}, returns=T.bool,
-                     requires=req, ensures=lambda c: [('def', c.res == ANC(c.self, c.target_asset))] + old_region_unchanged_all(c.old, c.h),
+                     requires=req, ensures=lambda c: [('def', c.res == ANC(c.self, c.target_asset)),
+                                                      ('no-fresh-dicts', FA([A('d!nd')], z3.Implies(z3.And(A('d!nd') >= c.old.alloc, A('d!nd') < c.h.alloc),
+                                                                                                   c.h.cls(A('d!nd')) != CLS_DICT), [c.h.cls(A('d!nd'))]))]
+                                                     + old_region_unchanged_all(c.old, c.h),
                      modifies=LIST_ARRAYS + ('cls', 'own_obj'), allocates=True,
                      loops={0: LoopSpec(inv, variant=variant)}, props=('C15', 'C01'),
                      note='equality of language-graph assets is identity (EQ-ID: asset names are unique)'))
